@@ -283,6 +283,7 @@ def run(ctx: Ctx) -> None:
     memo.rule_isinstance_on_class(ctx, [SRC, STATE])
     memo.rule_zip_truncation(ctx, [SRC, STATE])
     memo.rule_search_fallthrough(ctx, [SRC, STATE])
+    memo.rule_zip_pairing(ctx, [SRC, STATE])
     numeric.rule_gf2round(ctx, armed=[(SRC, "_graph_finder")],
                           advisory=[(SRC, "_phase_correction"), (LCE, "_solution_basis_finder"), (LCE, "_vec_solution_finder")])
     ctx.floor("flow.missing-return", 25)
